@@ -12,7 +12,12 @@ two separate function objects, each with the reason:
 * `round`, `abs`: the global names are CSS math functions (`round(up, 1.5px, 1px)`,
   `abs(var(--x))`), defined separately by `math::expose` (`round::css_round`,
   `css::global`).
-For those four the only evidence of agreement is the correspondence run.
+* `max`, `min` (since /repo 424b303): the global names are also the CSS functions
+  `max()`/`min()`; `math::expose` defines them separately with `find_extreme(.., strict =
+  false)` (numbers Sass cannot compare are kept as a CSS call), the module versions are
+  strict (error).  This pair DISAGREES by design on incomparable arguments (dart-sass
+  does the same): known finding `C34-minmax-css-fallback`, modelled in `Glue/FnMinMax.lean`.
+For those six the only evidence of agreement is the correspondence run.
 
 Import-free (core only).
 -/
@@ -110,7 +115,9 @@ def separatelyDefined : List DocPair := [
   ⟨['g','r','a','y','s','c','a','l','e'], ['c','o','l','o','r'], ['g','r','a','y','s','c','a','l','e']⟩,
   ⟨['i','n','v','e','r','t'], ['c','o','l','o','r'], ['i','n','v','e','r','t']⟩,
   ⟨['r','o','u','n','d'], ['m','a','t','h'], ['r','o','u','n','d']⟩,
-  ⟨['a','b','s'], ['m','a','t','h'], ['a','b','s']⟩
+  ⟨['a','b','s'], ['m','a','t','h'], ['a','b','s']⟩,
+  ⟨['m','a','x'], ['m','a','t','h'], ['m','a','x']⟩,
+  ⟨['m','i','n'], ['m','a','t','h'], ['m','i','n']⟩
 ]
 
 /-- every documented pair is either listed as separately defined or one shared object -/
